@@ -1,114 +1,1079 @@
-// temporary probe (replaced by the real harness)
-use grafeo_common::types::Value;
+//! C09 — the optimizer never changes a query's answer.
+//!
+//! For generated core queries (rendered to GQL from an abstract query) and for hand-built logical
+//! plans over generated small graphs the harness
+//!   (a) dumps the translated+bound logical plan and the plan `Optimizer::optimize` returns under each
+//!       of the 8 switch combinations as Coq terms of `GV.Query.Plan.plan` (by matching on the public
+//!       enums; anything outside the modelled core makes the case "unmodelled"),
+//!   (b) lets Coq compare plan-after with `Opt.v` applied to plan-before (`chk_opts`),
+//!   (c) ORACLE: executes the same plan through the real planner+executor under all 8 switch
+//!       combinations x statistics fresh / stale / absent and requires identical row multisets
+//!       (identical sequences under ORDER BY on a total key),
+//!   (d) lets Coq compare the engine's rows with `sem G plan` (`chk_sem`) where the plan is modelled.
+use grafeo_common::types::{EdgeId, NodeId, Value};
 use grafeo_engine::GrafeoDB;
 use grafeo_engine::query::optimizer::Optimizer;
 use grafeo_engine::query::plan::*;
-use grafeo_engine::query::{binder::Binder, gql_translator, Executor, Planner};
+use grafeo_engine::query::{Executor, Planner, binder::Binder, gql_translator};
+use gv_harness::*;
 use std::sync::Arc;
 
-fn run(db: &GrafeoDB, plan: &LogicalPlan, opt: &Optimizer) -> Result<(String, Vec<Vec<Value>>), String> {
-    let optimized = opt.optimize(plan.clone()).map_err(|e| format!("opt: {e}"))?;
-    let dump = format!("{:?}", optimized.root);
-    let planner = Planner::new(Arc::clone(db.store()));
-    let mut phys = planner.plan(&optimized).map_err(|e| format!("plan: {e}"))?;
-    let ex = Executor::with_columns(phys.columns.clone());
-    let r = ex.execute(phys.operator.as_mut()).map_err(|e| format!("exec: {e}"))?;
-    Ok((dump, r.rows))
+// ------------------------------------------------------------------------------------------ Coq printing
+
+fn cs(s: &str) -> String {
+    assert!(!s.contains('"') && !s.contains('\\'), "string not printable: {s}");
+    format!("\"{}\"%string", s)
+}
+fn cos(o: &Option<String>) -> String {
+    match o {
+        Some(s) => format!("(Some {})", cs(s)),
+        None => "None".into(),
+    }
+}
+fn cval(v: &Value) -> Option<String> {
+    Some(match v {
+        Value::Null => "VNull".into(),
+        Value::Bool(b) => format!("(VBool {})", coq::b(*b)),
+        Value::Int64(i) => format!("(VInt {})", coq::z(*i)),
+        Value::String(s) => {
+            if s.contains('"') || s.contains('\\') || !s.is_ascii() {
+                return None;
+            }
+            format!("(VStr {})", cs(s))
+        }
+        _ => return None,
+    })
 }
 
-fn show(db: &GrafeoDB, q: &str) {
-    println!("== {q}");
-    let plan = match gql_translator::translate(q) {
-        Ok(p) => p,
-        Err(e) => {
-            println!("   translate ERR {e}");
+fn cexpr(e: &LogicalExpression) -> Option<String> {
+    Some(match e {
+        LogicalExpression::Literal(v) => format!("(ELit {})", cval(v)?),
+        LogicalExpression::Variable(x) => format!("(EVar {})", cs(x)),
+        LogicalExpression::Property { variable, property } => format!("(EProp {} {})", cs(variable), cs(property)),
+        LogicalExpression::Binary { left, op, right } => {
+            let o = match op {
+                BinaryOp::Eq => "OEq",
+                BinaryOp::Ne => "ONe",
+                BinaryOp::Lt => "OLt",
+                BinaryOp::Le => "OLe",
+                BinaryOp::Gt => "OGt",
+                BinaryOp::Ge => "OGe",
+                BinaryOp::And => "OAnd",
+                BinaryOp::Or => "OOr",
+                BinaryOp::Add => "OAdd",
+                BinaryOp::Sub => "OSub",
+                BinaryOp::Mul => "OMul",
+                _ => return None,
+            };
+            format!("(EBin {} {} {})", o, cexpr(left)?, cexpr(right)?)
+        }
+        LogicalExpression::Unary { op, operand } => {
+            let o = match op {
+                UnaryOp::Not => "UNot",
+                UnaryOp::IsNull => "UIsNull",
+                UnaryOp::IsNotNull => "UIsNotNull",
+                UnaryOp::Neg => "UNeg",
+            };
+            format!("(EUn {} {})", o, cexpr(operand)?)
+        }
+        LogicalExpression::FunctionCall { name, args, distinct: false } if name == "hasLabel" && args.len() == 2 => {
+            match (&args[0], &args[1]) {
+                (LogicalExpression::Variable(x), LogicalExpression::Literal(Value::String(l))) => {
+                    format!("(EHasLabel {} {})", cs(x), cs(l))
+                }
+                _ => return None,
+            }
+        }
+        _ => return None,
+    })
+}
+
+fn citems<'a, I: Iterator<Item = (&'a LogicalExpression, &'a Option<String>)>>(it: I) -> Option<String> {
+    let mut v = vec![];
+    for (e, a) in it {
+        v.push(format!("({}, {})", cexpr(e)?, cos(a)));
+    }
+    Some(coq::list(v))
+}
+
+fn cplan(op: &LogicalOperator) -> Option<String> {
+    Some(match op {
+        LogicalOperator::Empty => "PEmpty".into(),
+        LogicalOperator::NodeScan(s) => match &s.input {
+            None => format!("(PScan {} {})", cs(&s.variable), cos(&s.label)),
+            Some(i) => format!("(PScanIn {} {} {})", cs(&s.variable), cos(&s.label), cplan(i)?),
+        },
+        LogicalOperator::Expand(e) => {
+            if e.min_hops != 1 || e.max_hops != Some(1) || e.path_alias.is_some() {
+                return None;
+            }
+            let d = match e.direction {
+                ExpandDirection::Outgoing => "DOut",
+                ExpandDirection::Incoming => "DIn",
+                ExpandDirection::Both => "DBoth",
+            };
+            format!(
+                "(PExpand {} {} {} {} {} {})",
+                cs(&e.from_variable),
+                cs(&e.to_variable),
+                cos(&e.edge_variable),
+                d,
+                cos(&e.edge_type),
+                cplan(&e.input)?
+            )
+        }
+        LogicalOperator::Filter(f) => format!("(PFilter {} {})", cexpr(&f.predicate)?, cplan(&f.input)?),
+        LogicalOperator::Project(p) => format!(
+            "(PProject {} {})",
+            citems(p.projections.iter().map(|x| (&x.expression, &x.alias)))?,
+            cplan(&p.input)?
+        ),
+        LogicalOperator::Return(r) => format!(
+            "(PReturn {} {} {})",
+            citems(r.items.iter().map(|x| (&x.expression, &x.alias)))?,
+            coq::b(r.distinct),
+            cplan(&r.input)?
+        ),
+        LogicalOperator::Join(j) => {
+            let k = match j.join_type {
+                JoinType::Inner => "JInner",
+                JoinType::Cross => "JCross",
+                JoinType::Left => "JLeft",
+                _ => return None,
+            };
+            let mut cv = vec![];
+            for c in &j.conditions {
+                cv.push(format!("({}, {})", cexpr(&c.left)?, cexpr(&c.right)?));
+            }
+            format!("(PJoin {} {} {} {})", k, coq::list(cv), cplan(&j.left)?, cplan(&j.right)?)
+        }
+        LogicalOperator::LeftJoin(j) => {
+            if j.condition.is_some() {
+                return None;
+            }
+            format!("(PLeftJoin {} {})", cplan(&j.left)?, cplan(&j.right)?)
+        }
+        LogicalOperator::Aggregate(a) => {
+            if a.having.is_some() {
+                return None;
+            }
+            let mut gs = vec![];
+            for g in &a.group_by {
+                gs.push(cexpr(g)?);
+            }
+            let mut ags = vec![];
+            for x in &a.aggregates {
+                if x.distinct {
+                    return None;
+                }
+                let f = match (x.function, &x.expression) {
+                    (AggregateFunction::Count, None) => "ACountStar".to_string(),
+                    (AggregateFunction::CountNonNull, Some(e)) => format!("(ACountNonNull {})", cexpr(e)?),
+                    _ => return None,
+                };
+                ags.push(format!("({}, {})", f, cos(&x.alias)));
+            }
+            format!("(PAgg {} {} {})", coq::list(gs), coq::list(ags), cplan(&a.input)?)
+        }
+        LogicalOperator::Sort(s) => {
+            let mut ks = vec![];
+            for k in &s.keys {
+                ks.push(format!("({}, {})", cexpr(&k.expression)?, coq::b(k.order == SortOrder::Descending)));
+            }
+            format!("(PSort {} {})", coq::list(ks), cplan(&s.input)?)
+        }
+        LogicalOperator::Skip(s) => {
+            if s.count >= 4000 {
+                return None;
+            }
+            format!("(PSkip {} {})", coq::nat(s.count), cplan(&s.input)?)
+        }
+        LogicalOperator::Limit(s) => {
+            if s.count >= 4000 {
+                return None;
+            }
+            format!("(PLimit {} {})", coq::nat(s.count), cplan(&s.input)?)
+        }
+        LogicalOperator::Distinct(d) => {
+            if d.columns.is_some() {
+                return None;
+            }
+            format!("(PDistinct {})", cplan(&d.input)?)
+        }
+        LogicalOperator::Union(u) => {
+            if u.inputs.len() != 2 {
+                return None;
+            }
+            format!("(PUnion {} {})", cplan(&u.inputs[0])?, cplan(&u.inputs[1])?)
+        }
+        _ => return None,
+    })
+}
+
+// ------------------------------------------------------------------------------------------ graphs
+
+#[derive(Clone)]
+struct GNode {
+    id: u64,
+    labels: Vec<String>,
+    props: Vec<(String, Value)>,
+}
+#[derive(Clone)]
+struct GEdge {
+    id: u64,
+    src: u64,
+    dst: u64,
+    ty: String,
+    props: Vec<(String, Value)>,
+}
+struct Fixture {
+    db: GrafeoDB,
+    nodes: Vec<GNode>,
+    edges: Vec<GEdge>,
+    /// optimizer whose estimator was filled before the last part of the data was inserted
+    stale: Option<grafeo_core::statistics::Statistics>,
+    desc: String,
+}
+
+const LABELS: [&str; 3] = ["A", "B", "C"];
+const ETYPES: [&str; 2] = ["R", "S"];
+
+fn props_coq(ps: &[(String, Value)]) -> String {
+    coq::list(ps.iter().map(|(k, v)| format!("({}, {})", cs(k), cval(v).expect("fixture value"))))
+}
+
+impl Fixture {
+    fn coq(&self) -> String {
+        let ns = coq::list(self.nodes.iter().map(|n| {
+            format!(
+                "(mkNode {} {} {})",
+                coq::zu(n.id),
+                coq::list(n.labels.iter().map(|l| cs(l))),
+                props_coq(&n.props)
+            )
+        }));
+        let es = coq::list(self.edges.iter().map(|e| {
+            format!(
+                "(mkEdge {} {} {} {} {})",
+                coq::zu(e.id),
+                coq::zu(e.src),
+                coq::zu(e.dst),
+                cs(&e.ty),
+                props_coq(&e.props)
+            )
+        }));
+        format!("(mkGraph {} {})", ns, es)
+    }
+
+    fn add_node(&mut self, labels: &[&str], props: Vec<(String, Value)>) -> u64 {
+        let id: NodeId = self.db.create_node(labels);
+        for (k, v) in &props {
+            self.db.set_node_property(id, k, v.clone());
+        }
+        self.nodes.push(GNode { id: id.0, labels: labels.iter().map(|s| s.to_string()).collect(), props });
+        id.0
+    }
+    fn add_edge(&mut self, src: u64, dst: u64, ty: &str, props: Vec<(String, Value)>) {
+        let id: EdgeId = self.db.create_edge(NodeId(src), NodeId(dst), ty);
+        for (k, v) in &props {
+            self.db.set_edge_property(id, k, v.clone());
+        }
+        self.edges.push(GEdge { id: id.0, src, dst, ty: ty.to_string(), props });
+    }
+}
+
+/// Small graph: 0..10 nodes over labels A/B/C with int properties v, w (small range, sometimes
+/// missing), a unique int u and a string s; 0..14 edges of types R/S with an int property ew
+/// (self-loops and parallel edges included).  No explicit transactions (DESIGN §0 b).
+fn gen_fixture(r: &mut Rng) -> Fixture {
+    let mut f = Fixture { db: GrafeoDB::new_in_memory(), nodes: vec![], edges: vec![], stale: None, desc: String::new() };
+    let nn = match r.below(8) {
+        0 => r.below(3) as usize,
+        _ => 3 + r.below(8) as usize,
+    };
+    let ne = if nn == 0 { 0 } else { r.below(15) as usize };
+    // stale statistics are taken after about half of the data
+    let cut_n = nn / 2;
+    let cut_e = ne / 2;
+    let mut ids = vec![];
+    let gen_node = |f: &mut Fixture, r: &mut Rng, i: usize| -> u64 {
+        let l1 = *r.pick(&LABELS);
+        let mut labels = vec![l1];
+        if r.chance(1, 8) {
+            let l2 = *r.pick(&LABELS);
+            if l2 != l1 {
+                labels.push(l2);
+            }
+        }
+        let mut props = vec![];
+        if !r.chance(1, 7) {
+            props.push(("v".to_string(), Value::Int64(r.range(0, 3))));
+        }
+        if !r.chance(1, 4) {
+            props.push(("w".to_string(), Value::Int64(r.range(0, 3))));
+        }
+        props.push(("u".to_string(), Value::Int64(100 + i as i64)));
+        if r.chance(1, 2) {
+            props.push(("s".to_string(), Value::String((*r.pick(&["x", "y"])).into())));
+        }
+        f.add_node(&labels, props)
+    };
+    let gen_edge = |f: &mut Fixture, r: &mut Rng, ids: &[u64]| {
+        let s = *r.pick(ids);
+        let d = if r.chance(1, 8) { s } else { *r.pick(ids) };
+        let ty = *r.pick(&ETYPES);
+        let mut props = vec![];
+        if !r.chance(1, 5) {
+            props.push(("ew".to_string(), Value::Int64(r.range(0, 3))));
+        }
+        f.add_edge(s, d, ty, props);
+    };
+    for i in 0..cut_n {
+        ids.push(gen_node(&mut f, r, i));
+    }
+    if !ids.is_empty() {
+        for _ in 0..cut_e {
+            gen_edge(&mut f, r, &ids);
+        }
+    }
+    f.db.store().ensure_statistics_fresh();
+    f.stale = Some(f.db.store().statistics());
+    for i in cut_n..nn {
+        ids.push(gen_node(&mut f, r, i));
+    }
+    if !ids.is_empty() {
+        for _ in cut_e..ne {
+            gen_edge(&mut f, r, &ids);
+        }
+    }
+    f.desc = format!("graph {} nodes {} edges", f.nodes.len(), f.edges.len());
+    f
+}
+
+/// The fixed graph of the corpus cases: A(v=0..3), B(v=0..2), C(v=1..3), a few R/S edges.
+fn corpus_fixture() -> Fixture {
+    let mut f = Fixture { db: GrafeoDB::new_in_memory(), nodes: vec![], edges: vec![], stale: None, desc: "corpus graph".into() };
+    let mut a = vec![];
+    let mut b = vec![];
+    let mut c = vec![];
+    let mut u = 100;
+    for i in 0..4i64 {
+        a.push(f.add_node(&["A"], vec![("v".into(), Value::Int64(i)), ("u".into(), Value::Int64(u))]));
+        u += 1;
+    }
+    f.db.store().ensure_statistics_fresh();
+    f.stale = Some(f.db.store().statistics());
+    for i in 0..3i64 {
+        b.push(f.add_node(&["B"], vec![("v".into(), Value::Int64(i)), ("u".into(), Value::Int64(u))]));
+        u += 1;
+    }
+    for i in 0..3i64 {
+        c.push(f.add_node(&["C"], vec![("v".into(), Value::Int64(i + 1)), ("u".into(), Value::Int64(u))]));
+        u += 1;
+    }
+    f.add_edge(a[0], b[0], "R", vec![("ew".into(), Value::Int64(1))]);
+    f.add_edge(a[0], b[1], "R", vec![("ew".into(), Value::Int64(2))]);
+    f.add_edge(a[1], b[1], "R", vec![]);
+    f.add_edge(a[2], b[2], "S", vec![("ew".into(), Value::Int64(3))]);
+    f.add_edge(b[0], c[0], "S", vec![]);
+    f
+}
+
+// ------------------------------------------------------------------------------------------ running
+
+#[derive(Clone, PartialEq)]
+struct Outcome {
+    /// Ok(rows) or Err(stage: message kind)
+    rows: Result<Vec<Vec<Value>>, String>,
+}
+
+fn run_plan(db: &GrafeoDB, plan: &LogicalPlan, opt: &Optimizer) -> (Option<LogicalPlan>, Outcome) {
+    let p = plan.clone();
+    let r = catch(std::panic::AssertUnwindSafe(|| {
+        let optimized = match opt.optimize(p) {
+            Ok(o) => o,
+            Err(e) => return (None, Err(format!("optimize: {e}"))),
+        };
+        let planner = Planner::new(Arc::clone(db.store()));
+        let mut phys = match planner.plan(&optimized) {
+            Ok(p) => p,
+            Err(_) => return (Some(optimized), Err("plan-error".to_string())),
+        };
+        let ex = Executor::with_columns(phys.columns.clone());
+        match ex.execute(phys.operator.as_mut()) {
+            Ok(r) => (Some(optimized), Ok(r.rows)),
+            Err(_) => (Some(optimized), Err("exec-error".to_string())),
+        }
+    }));
+    match r {
+        Ok((o, rows)) => (o, Outcome { rows }),
+        Err(m) => (None, Outcome { rows: Err(format!("panic: {m}")) }),
+    }
+}
+
+fn canon(o: &Outcome, ordered: bool) -> String {
+    match &o.rows {
+        Ok(rows) => {
+            let mut v: Vec<String> = rows.iter().map(|r| format!("{:?}", r)).collect();
+            if !ordered {
+                v.sort();
+            }
+            format!("{} rows {}", v.len(), v.join(" "))
+        }
+        Err(e) => format!("ERR {e}"),
+    }
+}
+
+fn switches(base: Optimizer, m: u32) -> Optimizer {
+    base.with_filter_pushdown(m & 1 != 0).with_join_reorder(m & 2 != 0).with_projection_pushdown(m & 4 != 0)
+}
+
+/// The whole treatment of one (graph, logical plan): dumps, correspondence terms, oracle.
+fn treat(out: &mut Out, fx: &mut Fixture, kind: &str, text: &str, plan: &LogicalPlan, ordered: bool, sem_ok: bool, mut tags: Vec<String>) {
+    let before = cplan(&plan.root);
+    // (c) oracle: 8 switch combinations x {fresh, stale, absent} statistics
+    let mut afters: Vec<(u32, Option<String>)> = vec![];
+    let mut reference: Option<(String, Outcome)> = None;
+    let mut diffs: Vec<String> = vec![];
+    for st in 0..3 {
+        for m in 0..8u32 {
+            let base = match st {
+                0 => Optimizer::from_store(fx.db.store()),
+                1 => match &fx.stale {
+                    Some(stats) => Optimizer::new().with_cardinality_estimator(
+                        grafeo_engine::query::optimizer::CardinalityEstimator::from_statistics(stats),
+                    ),
+                    None => Optimizer::new(),
+                },
+                _ => Optimizer::new(),
+            };
+            let opt = switches(base, m);
+            let (optimized, outcome) = run_plan(&fx.db, plan, &opt);
+            let c = canon(&outcome, ordered);
+            if st == 0 {
+                afters.push((m, optimized.as_ref().and_then(|o| cplan(&o.root))));
+            }
+            match &reference {
+                None => reference = Some((c, outcome)),
+                Some((rc, _)) => {
+                    if *rc != c && diffs.len() < 3 {
+                        diffs.push(format!("switches={m} stats={} -> {}", ["fresh", "stale", "absent"][st], &c[..c.len().min(300)]));
+                    }
+                }
+            }
+        }
+    }
+    let (ref_canon, ref_outcome) = reference.unwrap();
+    let modelled = before.is_some() && afters.iter().all(|(_, a)| a.is_some());
+    let g = fx.coq();
+    let mut case = Case { kind: kind.to_string(), input: format!("{} | {}", text, fx.desc), ..Default::default() };
+    case.imp = ref_canon[..ref_canon.len().min(400)].to_string();
+    let afters_coq = if modelled {
+        Some(coq::list(afters.iter().map(|(m, a)| format!("({}, {})", coq::nat(*m as usize), a.clone().unwrap()))))
+    } else {
+        None
+    };
+    if let (Some(b), Some(a)) = (&before, &afters_coq) {
+        case.coq = Some(format!("chk_opts {} {}", b, a));
+        case.show = Some(format!("show_opt true {}", b));
+        let changed = afters.iter().any(|(_, x)| x.as_ref() != before.as_ref());
+        case.nontrivial = changed;
+        tags.push(if changed { "plan-changed".into() } else { "plan-unchanged".into() });
+    } else {
+        tags.push("unmodelled".into());
+        case.kind = format!("{kind}-unmodelled");
+    }
+    if diffs.is_empty() {
+        case.oracle = Oracle::Ok;
+    } else {
+        case.oracle = Oracle::Fail;
+        case.msg = format!("reference (no rewrites, fresh statistics): {} ;; differing: {}", &ref_canon[..ref_canon.len().min(300)], diffs.join(" ;; "));
+        if let (Some(b), Some(a)) = (&before, &afters_coq) {
+            // class decided in Coq; the harness only says which finding it believes applies
+            let is_plan = kind.starts_with("plan");
+            case.kid = Some(if is_plan { "C09-K2".into() } else { "C09-K1".into() });
+            case.kcoq = Some(if is_plan { format!("k_opts {} {}", b, a) } else { format!("k_push_opts {} {}", b, a) });
+        }
+        tags.push("oracle-fail".into());
+    }
+    if let Err(e) = &ref_outcome.rows {
+        tags.push(format!("ref-{}", e.split(':').next().unwrap_or("err")));
+    }
+    case.tags = tags.clone();
+    out.emit(&case);
+    // (d) engine rows against sem (reference run = no rewrites)
+    if let (true, Some(b), Ok(rows)) = (modelled && sem_ok, &before, &ref_outcome.rows) {
+        let mut rs = vec![];
+        for row in rows {
+            let mut vs = vec![];
+            for v in row {
+                match cval(v) {
+                    Some(s) => vs.push(s),
+                    None => return,
+                }
+            }
+            rs.push(coq::list(vs));
+        }
+        if rows.len() > 400 {
             return;
+        }
+        let mut c2 = Case { kind: format!("{kind}-sem"), input: format!("{} | {}", text, fx.desc), ..Default::default() };
+        c2.coq = Some(format!("chk_sem {} {} {} {}", g, b, coq::b(ordered), coq::list(rs)));
+        c2.show = Some(format!("show_sem {} {}", g, b));
+        c2.imp = case.imp.clone();
+        c2.nontrivial = rows.len() > 0;
+        c2.oracle = Oracle::Na;
+        c2.tags = vec![if rows.is_empty() { "sem-empty".into() } else { "sem-rows".into() }];
+        out.emit(&c2);
+    }
+}
+
+fn treat_gql(out: &mut Out, fx: &mut Fixture, q: &str, ordered: bool, sem_ok: bool, mut tags: Vec<String>) -> bool {
+    let plan = match catch(|| gql_translator::translate(q)) {
+        Ok(Ok(p)) => p,
+        _ => {
+            let mut c = Case { kind: "gql-rejected".into(), input: q.to_string(), ..Default::default() };
+            c.tags = vec!["rejected-translate".into()];
+            out.emit(&c);
+            return false;
         }
     };
     let mut b = Binder::new();
-    if let Err(e) = b.bind(&plan) {
-        println!("   bind ERR {e}");
-        return;
+    if b.bind(&plan).is_err() {
+        let mut c = Case { kind: "gql-rejected".into(), input: q.to_string(), ..Default::default() };
+        c.tags = vec!["rejected-bind".into()];
+        out.emit(&c);
+        return false;
     }
-    println!("   plan  {:?}", plan.root);
-    let mut base: Option<Vec<String>> = None;
-    for m in 0..8u32 {
-        let opt = Optimizer::from_store(db.store())
-            .with_filter_pushdown(m & 1 != 0)
-            .with_join_reorder(m & 2 != 0)
-            .with_projection_pushdown(m & 4 != 0);
-        match run(db, &plan, &opt) {
-            Ok((dump, rows)) => {
-                let mut rs: Vec<String> = rows.iter().map(|r| format!("{:?}", r)).collect();
-                let seq = rs.clone();
-                rs.sort();
-                if m == 0 {
-                    println!("   [0] {} rows: {}", seq.len(), seq.iter().take(8).cloned().collect::<Vec<_>>().join(" "));
-                    base = Some(rs);
-                } else if base.as_ref() != Some(&rs) {
-                    println!("   [{}] DIFF {} rows: {}\n       plan {}", m, seq.len(), seq.iter().take(8).cloned().collect::<Vec<_>>().join(" "), dump);
+    tags.push("gql".into());
+    treat(out, fx, "gql", q, &plan, ordered, sem_ok, tags);
+    true
+}
+
+// ------------------------------------------------------------------------------------------ query generator
+
+#[derive(Clone)]
+struct NVar {
+    name: String,
+    /// false once the variable may be NULL (bound by OPTIONAL MATCH)
+    total: bool,
+}
+
+struct QGen<'a> {
+    r: &'a mut Rng,
+    nodes: Vec<NVar>,
+    edges: Vec<String>,
+    ints: Vec<String>,
+    next: usize,
+    tags: Vec<String>,
+}
+
+impl<'a> QGen<'a> {
+    fn fresh(&mut self, p: &str) -> String {
+        self.next += 1;
+        format!("{}{}", p, self.next)
+    }
+    fn label(&mut self) -> String {
+        (*self.r.pick(&LABELS)).to_string()
+    }
+    fn pattern(&mut self, optional: bool) -> String {
+        let a = self.fresh("n");
+        let mut s = format!("({}:{})", a, self.label());
+        self.nodes.push(NVar { name: a, total: !optional });
+        let hops = match self.r.below(10) {
+            0..=4 => 0,
+            5..=8 => 1,
+            _ => 2,
+        };
+        for _ in 0..hops {
+            let b = self.fresh("n");
+            let ev = if self.r.chance(1, 2) { Some(self.fresh("e")) } else { None };
+            let ty = if self.r.chance(2, 3) { format!(":{}", self.r.pick(&ETYPES)) } else { String::new() };
+            let inner = match &ev {
+                Some(e) => format!("[{}{}]", e, ty),
+                None => {
+                    if ty.is_empty() {
+                        "[]".to_string()
+                    } else {
+                        format!("[{}]", ty)
+                    }
+                }
+            };
+            let lbl = if self.r.chance(1, 2) { format!(":{}", self.label()) } else { String::new() };
+            let (l, rr) = match self.r.below(5) {
+                0 => ("<-", "-"),
+                1 => ("-", "-"),
+                _ => ("-", "->"),
+            };
+            s.push_str(&format!("{}{}{}({}{})", l, inner, rr, b, lbl));
+            self.nodes.push(NVar { name: b, total: !optional });
+            if let Some(e) = ev {
+                self.edges.push(e);
+            }
+            self.tags.push("expand".into());
+        }
+        s
+    }
+    fn cmp(&mut self) -> &'static str {
+        *self.r.pick(&["=", "<>", "<", "<=", ">", ">="])
+    }
+    fn nprop(&mut self) -> &'static str {
+        *self.r.pick(&["v", "v", "w", "u"])
+    }
+    fn atom(&mut self) -> String {
+        let k = self.r.below(12);
+        let pick_node = |s: &mut Self| s.nodes[s.r.below(s.nodes.len() as u64) as usize].name.clone();
+        match k {
+            0..=3 => {
+                let x = pick_node(self);
+                let p = self.nprop();
+                let c = if p == "u" { self.r.range(100, 106) } else { self.r.range(0, 3) };
+                format!("{}.{} {} {}", x, p, self.cmp(), c)
+            }
+            4..=6 if self.nodes.len() >= 2 => {
+                let x = pick_node(self);
+                let y = pick_node(self);
+                self.tags.push("atom-two-vars".into());
+                if self.r.chance(1, 3) {
+                    format!("{}.{} + 1 {} {}.{}", x, self.nprop(), self.cmp(), y, self.nprop())
+                } else {
+                    format!("{}.{} {} {}.{}", x, self.nprop(), self.cmp(), y, self.nprop())
                 }
             }
-            Err(e) => println!("   [{}] ERR {}", m, e),
+            7 if !self.edges.is_empty() => {
+                let e = self.edges[self.r.below(self.edges.len() as u64) as usize].clone();
+                self.tags.push("atom-edge".into());
+                format!("{}.ew {} {}", e, self.cmp(), self.r.range(0, 3))
+            }
+            8 if !self.ints.is_empty() => {
+                let k = self.ints[self.r.below(self.ints.len() as u64) as usize].clone();
+                self.tags.push("atom-computed".into());
+                format!("{} {} {}", k, self.cmp(), self.r.range(0, 4))
+            }
+            9 => {
+                let x = pick_node(self);
+                format!("{}.s = '{}'", x, self.r.pick(&["x", "y"]))
+            }
+            10 => {
+                let x = pick_node(self);
+                self.tags.push("atom-isnull".into());
+                if self.r.chance(1, 2) {
+                    format!("{}.{} IS NULL", x, self.nprop())
+                } else {
+                    format!("{}.{} IS NOT NULL", x, self.nprop())
+                }
+            }
+            _ => {
+                let x = pick_node(self);
+                format!("NOT ({}.{} {} {})", x, self.nprop(), self.cmp(), self.r.range(0, 3))
+            }
         }
     }
-    match db.session().execute(q) {
-        Ok(r) => println!("   session: {} rows", r.rows.len()),
-        Err(e) => println!("   session ERR {e}"),
+    fn predicate(&mut self) -> String {
+        let n = 1 + self.r.below(3);
+        let mut s = self.atom();
+        for _ in 1..n {
+            let op = if self.r.chance(4, 5) { "AND" } else { "OR" };
+            if op == "OR" {
+                s = format!("({}) OR ({})", s, self.atom());
+            } else {
+                s = format!("{} AND {}", s, self.atom());
+            }
+            self.tags.push(format!("where-{}", op.to_lowercase()));
+        }
+        s
+    }
+}
+
+/// Returns (GQL text, ordered on a total key?, rows comparable with sem?, tags)
+fn gen_query(r: &mut Rng) -> (String, bool, bool, Vec<String>) {
+    let mut g = QGen { r, nodes: vec![], edges: vec![], ints: vec![], next: 0, tags: vec![] };
+    let mut q = String::new();
+    let mut sem_ok = true;
+    let nclauses = match g.r.below(10) {
+        0..=2 => 1,
+        3..=7 => 2,
+        _ => 3,
+    };
+    let mut any_optional = false;
+    for ci in 0..nclauses {
+        let optional = ci > 0 && g.r.chance(1, 5);
+        if optional {
+            q.push_str("OPTIONAL ");
+            any_optional = true;
+            g.tags.push("optional-match".into());
+        }
+        q.push_str("MATCH ");
+        let np = if g.r.chance(1, 4) { 2 } else { 1 };
+        let mut ps = vec![];
+        for _ in 0..np {
+            ps.push(g.pattern(optional));
+        }
+        if np == 2 {
+            g.tags.push("comma-pattern".into());
+        }
+        q.push_str(&ps.join(", "));
+        q.push(' ');
+    }
+    g.tags.push(format!("match-clauses-{}", nclauses));
+    if any_optional {
+        // the engine's left join is compared only through the oracle
+        sem_ok = false;
+    }
+    if g.r.chance(3, 4) {
+        q.push_str(&format!("WHERE {} ", g.predicate()));
+        g.tags.push("where".into());
+    }
+    // WITH
+    let mut has_limit_below = false;
+    if g.r.chance(1, 3) {
+        g.tags.push("with".into());
+        let mut items = vec![];
+        let mut new_nodes = vec![];
+        let mut new_ints = vec![];
+        let olds = g.nodes.clone();
+        for nv in &olds {
+            match g.r.below(6) {
+                0 => {} // dropped
+                1 => {
+                    let p = g.fresh("p");
+                    items.push(format!("{} AS {}", nv.name, p));
+                    new_nodes.push(NVar { name: p, total: nv.total });
+                    g.tags.push("with-rename".into());
+                }
+                _ => {
+                    items.push(nv.name.clone());
+                    new_nodes.push(nv.clone());
+                }
+            }
+        }
+        if new_nodes.is_empty() {
+            items.push(olds[0].name.clone());
+            new_nodes.push(olds[0].clone());
+        }
+        if g.r.chance(1, 2) {
+            let x = olds[g.r.below(olds.len() as u64) as usize].name.clone();
+            let k = g.fresh("k");
+            let e = match g.r.below(3) {
+                0 => format!("{}.{} + 1", x, g.nprop()),
+                1 => format!("{}.{}", x, g.nprop()),
+                _ => format!("{}.{} * 2", x, g.nprop()),
+            };
+            items.push(format!("{} AS {}", e, k));
+            new_ints.push(k);
+            g.tags.push("with-computed".into());
+        }
+        let distinct = g.r.chance(1, 5);
+        q.push_str(&format!("WITH {}{} ", if distinct { "DISTINCT " } else { "" }, items.join(", ")));
+        if distinct {
+            g.tags.push("with-distinct".into());
+        }
+        g.nodes = new_nodes;
+        g.edges.clear();
+        g.ints = new_ints;
+        if g.r.chance(2, 3) {
+            q.push_str(&format!("WHERE {} ", g.predicate()));
+            g.tags.push("with-where".into());
+        }
+    }
+    // RETURN
+    let agg = g.r.chance(1, 6);
+    let mut ordered = false;
+    if agg {
+        g.tags.push("count".into());
+        let mut items = vec![];
+        if g.r.chance(1, 2) {
+            let x = g.nodes[g.r.below(g.nodes.len() as u64) as usize].name.clone();
+            items.push(format!("{}.{}", x, g.r.pick(&["v", "w"])));
+            g.tags.push("group-by".into());
+        }
+        if g.r.chance(1, 2) {
+            items.push("count(*) AS c".to_string());
+        } else {
+            let x = g.nodes[g.r.below(g.nodes.len() as u64) as usize].name.clone();
+            items.push(format!("count({}) AS c", x));
+        }
+        q.push_str(&format!("RETURN {}", items.join(", ")));
+    } else {
+        let mut items = vec![];
+        for nv in g.nodes.clone() {
+            if g.r.chance(3, 4) {
+                items.push(format!("{}.{}", nv.name, g.r.pick(&["v", "w", "u", "u"])));
+            }
+        }
+        for k in g.ints.clone() {
+            if g.r.chance(3, 4) {
+                items.push(k);
+            }
+        }
+        if items.is_empty() {
+            items.push(format!("{}.u", g.nodes[0].name));
+        }
+        let distinct = g.r.chance(1, 8);
+        if distinct {
+            g.tags.push("return-distinct".into());
+        }
+        q.push_str(&format!("RETURN {}{}", if distinct { "DISTINCT " } else { "" }, items.join(", ")));
+        if g.r.chance(1, 4) {
+            // ORDER BY the unique key of every node variable in scope: a total order on the rows
+            // as far as the returned node columns go
+            let keys: Vec<String> = g.nodes.iter().map(|n| format!("{}.u{}", n.name, if g.r.chance(1, 3) { " DESC" } else { "" })).collect();
+            q.push_str(&format!(" ORDER BY {}", keys.join(", ")));
+            g.tags.push("order-by".into());
+            // total only when no row multiplicity comes from anything but the node tuple
+            ordered = g.edges.is_empty() && g.ints.is_empty() && !any_optional && !q.contains("-[");
+        }
+    }
+    if g.r.chance(1, 6) {
+        q.push_str(&format!(" SKIP {}", g.r.below(3)));
+        g.tags.push("skip".into());
+        has_limit_below = true;
+    }
+    if g.r.chance(1, 5) {
+        q.push_str(&format!(" LIMIT {}", g.r.below(5)));
+        g.tags.push("limit".into());
+        has_limit_below = true;
+    }
+    if has_limit_below {
+        // SKIP/LIMIT are applied below the sort by the translator, on an input whose order the
+        // engine does not define: only the oracle and the plan correspondence are checked
+        sem_ok = false;
+        ordered = false;
+    }
+    let tags = g.tags.clone();
+    (q, ordered, sem_ok, tags)
+}
+
+// ------------------------------------------------------------------------------------------ hand-built plans
+
+fn scan(x: &str, l: &str) -> LogicalOperator {
+    LogicalOperator::NodeScan(NodeScanOp { variable: x.into(), label: Some(l.into()), input: None })
+}
+fn prop(x: &str, p: &str) -> LogicalExpression {
+    LogicalExpression::Property { variable: x.into(), property: p.into() }
+}
+fn var(x: &str) -> LogicalExpression {
+    LogicalExpression::Variable(x.into())
+}
+fn int(i: i64) -> LogicalExpression {
+    LogicalExpression::Literal(Value::Int64(i))
+}
+fn bin(l: LogicalExpression, op: BinaryOp, r: LogicalExpression) -> LogicalExpression {
+    LogicalExpression::Binary { left: Box::new(l), op, right: Box::new(r) }
+}
+fn filter(p: LogicalExpression, i: LogicalOperator) -> LogicalOperator {
+    LogicalOperator::Filter(FilterOp { predicate: p, input: Box::new(i) })
+}
+fn join(k: JoinType, conds: Vec<(LogicalExpression, LogicalExpression)>, l: LogicalOperator, r: LogicalOperator) -> LogicalOperator {
+    LogicalOperator::Join(JoinOp {
+        left: Box::new(l),
+        right: Box::new(r),
+        join_type: k,
+        conditions: conds.into_iter().map(|(a, b)| JoinCondition { left: a, right: b }).collect(),
+    })
+}
+fn ret(items: Vec<(LogicalExpression, Option<&str>)>, i: LogicalOperator) -> LogicalOperator {
+    LogicalOperator::Return(ReturnOp {
+        items: items.into_iter().map(|(e, a)| ReturnItem { expression: e, alias: a.map(String::from) }).collect(),
+        distinct: false,
+        input: Box::new(i),
+    })
+}
+
+/// Random plan over 2..4 labelled scans joined by Inner/Cross (rarely Left) joins with
+/// Variable = Variable conditions (same-label scans make them satisfiable), filters on leaves,
+/// on sub-trees and on top, sometimes a Project/Limit in between; Return of every variable's u.
+fn gen_plan(r: &mut Rng) -> (LogicalPlan, String, Vec<String>) {
+    let mut tags = vec!["plan".to_string()];
+    let n = 2 + r.below(3) as usize;
+    let names: Vec<String> = (0..n).map(|i| format!("x{}", i)).collect();
+    let lab = *r.pick(&LABELS);
+    let mut leaves: Vec<(Vec<String>, LogicalOperator)> = names
+        .iter()
+        .map(|x| {
+            let l = if r.chance(2, 3) { lab } else { *r.pick(&LABELS) };
+            let mut op = scan(x, l);
+            if r.chance(1, 4) {
+                op = filter(bin(prop(x, "v"), *r.pick(&[BinaryOp::Gt, BinaryOp::Le, BinaryOp::Ne]), int(r.range(0, 2))), op);
+                tags.push("leaf-filter".into());
+            }
+            (vec![x.clone()], op)
+        })
+        .collect();
+    while leaves.len() > 1 {
+        let i = r.below(leaves.len() as u64) as usize;
+        let (lv, lo) = leaves.remove(i);
+        let j = r.below(leaves.len() as u64) as usize;
+        let (rv, ro) = leaves.remove(j);
+        let mut conds = vec![];
+        let nc = r.below(3);
+        for _ in 0..nc {
+            let a = r.pick(&lv).clone();
+            let b = r.pick(&rv).clone();
+            match r.below(8) {
+                0 => conds.push((var(&b), var(&a))), // written right-to-left
+                1 => conds.push((prop(&a, "v"), prop(&b, "v"))),
+                _ => conds.push((var(&a), var(&b))),
+            }
+        }
+        let k = if conds.is_empty() {
+            JoinType::Cross
+        } else if r.chance(1, 10) {
+            tags.push("left-join-type".into());
+            JoinType::Left
+        } else {
+            JoinType::Inner
+        };
+        if !conds.is_empty() {
+            tags.push("join-conditions".into());
+        }
+        let mut op = join(k, conds, lo, ro);
+        let mut vs = lv.clone();
+        vs.extend(rv.clone());
+        if r.chance(1, 5) {
+            let x = r.pick(&vs).clone();
+            op = filter(bin(prop(&x, "w"), BinaryOp::Ge, int(r.range(0, 2))), op);
+            tags.push("subtree-filter".into());
+        }
+        leaves.push((vs, op));
+    }
+    let (vs, mut op) = leaves.pop().unwrap();
+    if r.chance(1, 2) {
+        let x = r.pick(&vs).clone();
+        let y = r.pick(&vs).clone();
+        let p = if r.chance(1, 2) { bin(prop(&x, "v"), BinaryOp::Le, prop(&y, "w")) } else { bin(prop(&x, "v"), BinaryOp::Lt, int(2)) };
+        op = filter(p, op);
+        tags.push("top-filter".into());
+    }
+    if r.chance(1, 8) {
+        op = LogicalOperator::Limit(LimitOp { count: 1 + r.below(3) as usize, input: Box::new(op) });
+        tags.push("limit".into());
+    }
+    let items: Vec<(LogicalExpression, Option<&str>)> = vs.iter().map(|x| (prop(x, "u"), None)).collect();
+    let root = ret(items, op);
+    let text = format!("{:?}", root);
+    (LogicalPlan::new(root), text, tags)
+}
+
+// ------------------------------------------------------------------------------------------ corpus
+
+fn corpus(out: &mut Out) {
+    let mut fx = corpus_fixture();
+    // C09-K1: the witness of push_filters_refuted (a predicate over a comma pattern and a later MATCH)
+    let qs: [(&str, bool, bool); 14] = [
+        ("MATCH (a:A), (b:B) MATCH (c:C) WHERE a.v = c.v RETURN a.v, b.v, c.v", false, true),
+        ("MATCH (c:C) MATCH (a:A), (b:B) WHERE a.v = c.v RETURN a.v, b.v, c.v", false, true),
+        ("MATCH (a:A) OPTIONAL MATCH (a)-[:R]->(b:B) MATCH (c:C) WHERE a.v = c.v RETURN a.v, c.v", false, false),
+        ("MATCH (a:A) MATCH (b:B) WHERE a.v = b.v RETURN a.v, b.v", false, true),
+        ("MATCH (a:A) MATCH (b:B) WHERE a.v = 1 RETURN a.v, b.v", false, true),
+        ("MATCH (a:A) MATCH (b:B) WHERE b.v = 1 AND a.v > 0 RETURN a.v, b.v", false, true),
+        ("MATCH (a:A)-[r:R]->(b) WHERE a.v = 0 RETURN a.v, b.v", false, true),
+        ("MATCH (a:A)-[r:R]->(b) WHERE b.v = 1 AND r.ew > 0 RETURN a.v, b.v", false, true),
+        ("MATCH (a:A) WITH a, a.v + 1 AS x WHERE x > 2 RETURN a.v, x", false, true),
+        ("MATCH (a:A) WITH a, a.v + 1 AS x WHERE a.v > 2 RETURN a.v, x", false, true),
+        ("MATCH (a:A) MATCH (b:B) WITH a AS b, b AS a WHERE a.v = 1 RETURN a.v, b.v", false, true),
+        ("MATCH (a:A) MATCH (b:B) WHERE a.v > 0 RETURN a.v, b.v LIMIT 3", false, false),
+        ("MATCH (a:A) MATCH (b:B) WHERE a.v > 0 RETURN count(a) AS c", false, true),
+        ("MATCH (a:A) MATCH (b:B) WHERE a.v > 0 RETURN a.u, b.u ORDER BY a.u DESC, b.u", true, true),
+    ];
+    for (q, ordered, sem_ok) in qs {
+        treat_gql(out, &mut fx, q, ordered, sem_ok, vec!["corpus".into()]);
+    }
+    // plan-level witnesses (no front end emits these shapes; the optimizer and the plan types are public)
+    let v_eq = |a: &str, b: &str| (var(a), var(b));
+    let plans: Vec<(&str, LogicalOperator)> = vec![
+        // reorder fires: the filters inside and above the join tree are dropped
+        (
+            "filter above an Inner join with a usable condition",
+            ret(
+                vec![(prop("x", "u"), None), (prop("y", "u"), None)],
+                filter(bin(prop("x", "v"), BinaryOp::Gt, int(1)), join(JoinType::Inner, vec![v_eq("x", "y")], scan("x", "A"), scan("y", "A"))),
+            ),
+        ),
+        // Left join type: push into the optional side; reorder makes it Inner
+        (
+            "filter on the optional side of a Join{Left}",
+            ret(
+                vec![(prop("x", "u"), None), (prop("y", "u"), None)],
+                filter(
+                    LogicalExpression::Unary { op: UnaryOp::IsNull, operand: Box::new(prop("y", "v")) },
+                    join(JoinType::Left, vec![v_eq("x", "y")], scan("x", "A"), filter(bin(prop("y", "v"), BinaryOp::Gt, int(1)), scan("y", "A"))),
+                ),
+            ),
+        ),
+        // Filter above a Return that renames
+        (
+            "filter over Return alias",
+            filter(bin(var("k"), BinaryOp::Gt, int(1)), ret(vec![(prop("x", "v"), Some("k"))], scan("x", "A"))),
+        ),
+        // a sound reordering opportunity: three same-label scans, chain conditions, no filters
+        (
+            "chain of Inner joins",
+            ret(
+                vec![(prop("x", "u"), None), (prop("y", "u"), None), (prop("z", "u"), None)],
+                join(
+                    JoinType::Inner,
+                    vec![v_eq("y", "z")],
+                    join(JoinType::Inner, vec![v_eq("x", "y")], scan("x", "A"), scan("y", "A")),
+                    scan("z", "A"),
+                ),
+            ),
+        ),
+    ];
+    for (name, root) in plans {
+        let text = format!("{name}: {:?}", root);
+        treat(out, &mut fx, "plan", &text, &LogicalPlan::new(root), false, true, vec!["corpus".into(), "plan".into()]);
     }
 }
 
 fn main() {
-    let db = GrafeoDB::new_in_memory();
-    let mut a = vec![];
-    let mut bs = vec![];
-    let mut cs = vec![];
-    for i in 0..4i64 {
-        let n = db.create_node(&["A"]);
-        db.set_node_property(n, "v", Value::Int64(i));
-        a.push(n);
+    let a = parse_args();
+    quiet_panics();
+    if a.rest.first().map(|s| s.as_str()) == Some("probe") {
+        // debugging aid: run the given GQL queries on the corpus graph, unoptimized and fully optimized
+        let fx = corpus_fixture();
+        for q in &a.rest[1..] {
+            println!("== {q}");
+            match gql_translator::translate(q) {
+                Ok(plan) => {
+                    for m in [0u32, 7] {
+                        let (o, oc) = run_plan(&fx.db, &plan, &switches(Optimizer::from_store(fx.db.store()), m));
+                        println!("  [{}] {}", m, canon(&oc, true));
+                        if let Some(o) = o {
+                            println!("      {}", cplan(&o.root).unwrap_or_else(|| format!("{:?}", o.root)));
+                        }
+                    }
+                }
+                Err(e) => println!("  translate: {e}"),
+            }
+        }
+        return;
     }
-    for i in 0..3i64 {
-        let n = db.create_node(&["B"]);
-        db.set_node_property(n, "v", Value::Int64(i));
-        bs.push(n);
+    let mut out = Out::create(a.out.as_deref());
+    let mut r = Rng::new(a.seed);
+    corpus(&mut out);
+    let mut done = 0usize;
+    let mut guard = 0usize;
+    while done < a.cases && guard < a.cases * 4 {
+        guard += 1;
+        let mut fr = r.fork();
+        let mut fx = gen_fixture(&mut fr);
+        // several queries per graph
+        for _ in 0..4 {
+            if done >= a.cases {
+                break;
+            }
+            if r.chance(1, 5) {
+                let (plan, text, tags) = gen_plan(&mut r);
+                treat(&mut out, &mut fx, "plan", &text, &plan, false, true, tags);
+                done += 1;
+            } else {
+                let (q, ordered, sem_ok, tags) = gen_query(&mut r);
+                if treat_gql(&mut out, &mut fx, &q, ordered, sem_ok, tags) {
+                    done += 1;
+                }
+            }
+        }
     }
-    for i in 0..3i64 {
-        let n = db.create_node(&["C"]);
-        db.set_node_property(n, "v", Value::Int64(i + 1));
-        cs.push(n);
-    }
-    db.create_edge(a[0], bs[0], "R");
-    db.create_edge(a[0], bs[1], "R");
-    db.create_edge(a[1], bs[1], "R");
-    db.create_edge(a[2], bs[2], "S");
-    db.create_edge(bs[0], cs[0], "S");
-    println!("epoch {:?}", db.store().current_epoch());
-    show(&db, "MATCH (a:A) RETURN a.v");
-    show(&db, "MATCH (a:A) WHERE a.v > 1 RETURN a.v");
-    show(&db, "MATCH (a:A), (b:B) WHERE a.v = b.v RETURN a.v, b.v");
-    show(&db, "MATCH (a:A) MATCH (b:B) WHERE a.v = b.v RETURN a.v, b.v");
-    show(&db, "MATCH (a:A) MATCH (b:B) WHERE a.v = 1 RETURN a.v, b.v");
-    show(&db, "MATCH (a:A) MATCH (b:B) WHERE b.v = 1 RETURN a.v, b.v");
-    show(&db, "MATCH (a:A), (b:B) MATCH (c:C) WHERE a.v = c.v RETURN a.v, b.v, c.v");
-    show(&db, "MATCH (c:C) MATCH (a:A), (b:B) WHERE a.v = c.v RETURN a.v, b.v, c.v");
-    show(&db, "MATCH (a:A) OPTIONAL MATCH (a)-[:R]->(b) RETURN a.v, b.v");
-    show(&db, "MATCH (a:A) OPTIONAL MATCH (a)-[:R]->(b:B) MATCH (c:C) WHERE a.v = c.v RETURN a.v, b.v, c.v");
-    show(&db, "MATCH (a:A) OPTIONAL MATCH (x:B) MATCH (c:C) WHERE a.v = c.v RETURN a.v, c.v");
-    show(&db, "MATCH (a:A)-[:R]->(b:B) WHERE a.v = 0 RETURN a.v, b.v");
-    show(&db, "MATCH (a:A)-[r:R]->(b) WHERE b.v = 1 RETURN a.v, b.v");
-    show(&db, "MATCH (a:A)-[:R]->(b)-[:S]->(c) RETURN a.v, b.v, c.v");
-    show(&db, "MATCH (a:A) WITH a, a.v + 1 AS x WHERE x > 2 RETURN a.v, x");
-    show(&db, "MATCH (a:A) WITH a, a.v + 1 AS x WHERE a.v > 2 RETURN a.v, x");
-    show(&db, "MATCH (a:A) WITH a.v AS a WHERE a > 1 RETURN a");
-    show(&db, "MATCH (a:A) MATCH (b:B) WITH a, b WHERE a.v = 1 RETURN a.v, b.v");
-    show(&db, "MATCH (a:A) MATCH (b:B) WITH a AS b, b AS a WHERE a.v = 1 RETURN a.v, b.v");
-    show(&db, "MATCH (a:A) MATCH (b:B) WITH a AS p, b AS q WHERE p.v = 1 RETURN p.v, q.v");
-    show(&db, "MATCH (a:A) WITH DISTINCT a.v AS x RETURN x");
-    show(&db, "MATCH (a:A) RETURN a.v AS x ORDER BY x DESC LIMIT 2");
-    show(&db, "MATCH (a:A) MATCH (b:B) WHERE a.v > 0 RETURN a.v, b.v LIMIT 3");
-    show(&db, "MATCH (a:A) MATCH (b:B) WHERE a.v > 0 RETURN count(a)");
-    show(&db, "MATCH (a:A) MATCH (b:B) WHERE a.v > 0 RETURN count(a) AS c");
-    show(&db, "MATCH (a:A) MATCH (b:B) WHERE a.v > 0 AND b.v < 2 RETURN a.v, b.v");
-    show(&db, "MATCH (a:A) WHERE a.v > 0 MATCH (b:B) RETURN a.v, b.v");
+    out.finish();
 }
